@@ -192,11 +192,11 @@ var c01URLs = []string{"", "http://example.com/a/b-2.html?p=2#f", "http://exampl
 var (
 	c01Sch  = []string{"http://", "HTTP://", "//", "", "javascript:", "mailto:", "data:"}
 	c01Host = []string{"example.com", "EXAMPLE.COM", "ⱥ.com", "Ⱥ.COM", "İ.com", "Kelvin.com", "other.example", "user@example.com", "example.com:8080", ""}
-	c01Path = []string{"/a/2", "", "/", "/a/b-2.html", "/2", "/a/[*!]", "/a/[*!]/2", "/a//2/", "/2012/01/2", "/tag/2", "/a/b%2F2", "/2.html", "/a/2/3", "/a/page/2/"}
+	c01Path = []string{"/a/2", "", "/", "/a/b-2.html", "/2", "/a/[*!]", "/a/[*!]/2", "/a//2/", "/2012/01/2", "/tag/2", "/a/b%2F2", "/2.html", "/a/2/3", "/a/page/2/", "/a/b/2/a/b", "/a/b/c/2/b/c", "/a/b/2/a/b/c", "/reports/harbour/2/reports/harbour"}
 	c01Qry  = []string{"", "?p=2", "?p=2&p=3", "?page=2&x=[*!]", "?p=[*!]", "?q=2", "?page=2", "?2"}
 	c01Frag = []string{"", "#x"}
 	c01Pg   = []string{"http://example.com/a/1", "http://ⱥ.com/a/1", "http://Ⱥ.COM/a/1", "http://example.com/a/b-1.html", "http://example.com/a/[*!]/1", "http://example.com/a?p=1", "http://example.com/a?page=1&x=[*!]",
-		"http://example.com/", "http://example.com/a/1/", "http://İ.com/a/1", "http://example.com:8080/a/1", "http://example.com/2012/01/1", "http://example.com/a/b%2F1", "http://example.com/a/page/1/"}
+		"http://example.com/", "http://example.com/a/1/", "http://İ.com/a/1", "http://example.com:8080/a/1", "http://example.com/2012/01/1", "http://example.com/a/b%2F1", "http://example.com/a/page/1/", "http://example.com/a/b", "http://example.com/a/b/c/", "http://example.com/reports/harbour"}
 )
 
 func c01PagerDoc(href string) string {
@@ -396,6 +396,17 @@ func c01Enumerate(tier string, emit func(*eng.Case)) {
 			emit(&eng.Case{Kind: "title", P: map[string]string{"title": title, "h1": h1, "doc": fmt.Sprintf("<title>%s</title> h1=%s", title, h1)}})
 		}
 	})
+	// 9: scale sweep: one document with n distinct inline styles, classes, ids and link targets for n around
+	// every power of two up to 8192 (capacity limits of caches and tables sit at such boundaries)
+	for e := 0; e <= 13; e++ {
+		for _, d := range []int{-1, 0, 1} {
+			n := (1 << e) + d
+			if n < 1 || (tier != "thorough" && n > 4100) {
+				continue
+			}
+			emit(&eng.Case{Kind: "scale", URL: "http://example.com/a/2", P: map[string]string{"n": strconv.Itoa(n), "doc": fmt.Sprintf("document with %d distinct style/class/id/href values", n)}})
+		}
+	}
 	// 8: the file and URL entry points, including their failure paths
 	for _, body := range []string{"", "<p>x</p>", "<html><body><p>" + c01Long + "</p></body></html>", "\x00\x01\x02", "<title>"} {
 		for _, mode := range []string{"file-ok", "file-missing", "file-dir", "url-ok", "url-not-html", "url-no-content-type", "url-transport-error", "url-bad-url", "url-relative", "url-empty-body-204"} {
@@ -476,6 +487,16 @@ func c01Check(c *eng.Case) *eng.Outcome {
 		pi = eng.Protect(func() { res, err = distiller.ApplyForReader(bytes.NewReader([]byte(c.HTML)), c01Opts(c)) })
 	case "pager":
 		doc := ora.Parse(c.HTML)
+		pi = eng.Protect(func() { res, err = distiller.Apply(doc, c01Opts(c)) })
+	case "scale":
+		n, _ := strconv.Atoi(c.Get("n"))
+		var sb strings.Builder
+		sb.WriteString("<html><head><title>" + ora.DefaultTitle + "</title></head><body><div>")
+		for i := 0; i < n; i++ {
+			fmt.Fprintf(&sb, "<p style=\"margin-left:%dpx\" class=\"c%d\" id=\"i%d\">word%d text <span style=\"color:#%06x\">s%d</span> <a href=\"/a/%d?k=%d\">l%d</a></p>", i, i, i, i, i, i, i, i, i)
+		}
+		sb.WriteString("</div></body></html>")
+		doc := ora.Parse(sb.String())
 		pi = eng.Protect(func() { res, err = distiller.Apply(doc, c01Opts(c)) })
 	case "io":
 		mode := c.Get("mode")
@@ -594,7 +615,7 @@ func init() {
 		DesignRef: "§5 C01",
 		Rule: "five sub-spaces, each complete to its bound. (1) all ordered trees of hand-built nodes with <= 3 (quick) / <= 4 (thorough) nodes over 33 labels and of 4 / 5 nodes over 12 core labels, x every node as root attached (inside document>html>body) and detached, plus the document node and a bare document; " +
 			"(2) every tree of <= 2 / <= 3 nodes x every node x 11 field mutations (empty Data, upper-case tag, zero/wrong DataAtom, svg namespace, empty Attr slice, duplicate/empty attribute keys, Error/Doctype/Raw node types); (3) trees of <= 2 nodes x nil options and 16 URLs (IPv6, userinfo, non-ASCII host, mailto, relative, placeholder literal, escaped slash, ...) x log-flag sets x SkipPagination x algorithm; " +
-			"(4) a pager whose hrefs are scheme x host x path x query x fragment pieces with <= 2 pieces off default (quick) / full product (thorough) x 14 page URLs (case-folding hosts, placeholder literals, escapes) x both algorithms; (6) every element of the rich host document of C05 (all rendering paths) x 11 taints (hidden, display:none, children removed, aria-hidden, attributes removed, class=sidebar, display:block, contenteditable, class/id values matching both word lists of the link scorers), without URL and with URL under each pagination algorithm, singles and pairs (quick: pairs over the first 3 taints); (8) ApplyForFile on an existing/missing/directory path and ApplyForURL through a stub transport (HTML, non-HTML, missing content type, transport error, malformed and relative URL, 204) x 5 bodies x nil/non-nil options; (7) every <title> of <= 3 (quick) / <= 4 (thorough) tokens over 29 word/separator tokens (ASCII and full-width colon, dashes, pipes, guillemets, slashes, NBSP, punctuation), with and without an equal h1; (5) all ApplyForReader inputs of <= 3 / <= 4 tokens over 32 byte tokens and 4 / 5 over 12 core tokens, with and without URL. " +
+			"(4) a pager whose hrefs are scheme x host x path x query x fragment pieces with <= 2 pieces off default (quick) / full product (thorough) x 14 page URLs (case-folding hosts, placeholder literals, escapes) x both algorithms; (6) every element of the rich host document of C05 (all rendering paths) x 11 taints (hidden, display:none, children removed, aria-hidden, attributes removed, class=sidebar, display:block, contenteditable, class/id values matching both word lists of the link scorers), without URL and with URL under each pagination algorithm, singles and pairs (quick: pairs over the first 3 taints); (9) a scale sweep: one document with n distinct inline styles, classes, ids and link targets for n = 2^e-1, 2^e, 2^e+1 up to 4097 (quick) / 8193 (thorough); (8) ApplyForFile on an existing/missing/directory path and ApplyForURL through a stub transport (HTML, non-HTML, missing content type, transport error, malformed and relative URL, 204) x 5 bodies x nil/non-nil options; (7) every <title> of <= 3 (quick) / <= 4 (thorough) tokens over 29 word/separator tokens (ASCII and full-width colon, dashes, pipes, guillemets, slashes, NBSP, punctuation), with and without an equal h1; (5) all ApplyForReader inputs of <= 3 / <= 4 tokens over 32 byte tokens and 4 / 5 over 12 core tokens, with and without URL. " +
 			"Oracle: no panic, step budget (2e7 hook events) not exceeded, worker process survives, and the call returns an error or a result whose Node is a div element. Non-trivial = anything but a plain document root with default options.",
 		Enumerate:        c01Enumerate,
 		Check:            c01Check,
